@@ -235,7 +235,7 @@ def corr_recorder(ctx: Ctx):
 
 
 # ----------------------------------------------------------------------------- B: mutation schedules end to end
-HDR = "from inline_snapshot import snapshot\nimport copy\nLOG = []\n\n"
+HDR = "from inline_snapshot import snapshot\nimport copy\nfrom collections import namedtuple\nROW = namedtuple('ROW', 'k v')\nLOG = []\n\n"
 
 
 def gen_value_src(rng, depth=0):
@@ -261,19 +261,25 @@ def gen_sched(rng, i):
     if op in ("le", "ge"):      # bounds need totally ordered values: flat lists of ints
         v = repr([rng.randint(0, 9) for _ in range(rng.randint(1, 4))])
         muts = rng.sample(["v.append(99)", "v.clear()", "v.reverse()", "v.extend([1, 2])", "v.insert(0, -1)", "(v.pop() if v else None)"], rng.randint(1, 3))
+    # the compared value is the mutable list itself, or an immutable wrapper that holds it (a tuple is only shallowly immutable)
+    wrap = rng.choice(["", "", "({w},)", "(0, {w})", "ROW(0, {w})"]) if i % 2 else ""
     body = [f"    v = {v}"]
-    log = "    LOG.append(copy.deepcopy(v))"
+    cmp_v = "v"
+    if wrap:
+        body.append("    t = " + wrap.format(w="v"))
+        cmp_v = "t"
+    log = f"    LOG.append(copy.deepcopy({cmp_v}))"
     if op == "eq":
-        body += [log, "    assert v == snapshot()"] + [f"    {m}" for m in muts]
+        body += [log, f"    assert {cmp_v} == snapshot()"] + [f"    {m}" for m in muts]
     elif op == "eq_twice":
-        body += ["    for i in range(2):", "    " + log, "        assert v == snapshot()"] + [f"    {m}" for m in muts]
+        body += ["    for i in range(2):", "    " + log, f"        assert {cmp_v} == snapshot()"] + [f"    {m}" for m in muts]
     elif op == "in":
-        body += ["    for i in range(3):", "    " + log, "        assert v in snapshot()", f"        {muts[0]}"] + [f"    {m}" for m in muts[1:]]
+        body += ["    for i in range(3):", "    " + log, f"        assert {cmp_v} in snapshot()", f"        {muts[0]}"] + [f"    {m}" for m in muts[1:]]
     elif op in ("le", "ge"):
         sym = "<=" if op == "le" else ">="
-        body += ["    for i in range(3):", "    " + log, f"        assert v {sym} snapshot()", f"        {muts[0]}"] + [f"    {m}" for m in muts[1:]]
+        body += ["    for i in range(3):", "    " + log, f"        assert {cmp_v} {sym} snapshot()", f"        {muts[0]}"] + [f"    {m}" for m in muts[1:]]
     else:
-        body += ["    s = snapshot()", "    for i in range(2):", "    " + log, "        assert v == s[i]", f"        {muts[0]}"] + [f"    {m}" for m in muts[1:]]
+        body += ["    s = snapshot()", "    for i in range(2):", "    " + log, f"        assert {cmp_v} == s[i]", f"        {muts[0]}"] + [f"    {m}" for m in muts[1:]]
     src = HDR + "def test_a():\n" + "\n".join(body) + "\n"
     return {"op": op, "source": src}
 
@@ -286,7 +292,8 @@ def run_sched(s):
     try:
         tree = ast.parse(after)
         call = [n for n in ast.walk(tree) if isinstance(n, ast.Call) and isinstance(n.func, ast.Name) and n.func.id == "snapshot"][0]
-        out["arg"] = eval(compile(ast.Expression(call.args[0]), "<a>", "eval"), {}) if call.args else None
+        import collections
+        out["arg"] = eval(compile(ast.Expression(call.args[0]), "<a>", "eval"), {"ROW": collections.namedtuple("ROW", "k v")}) if call.args else None
         # the values at comparison time: execute the original test with snapshot := a recorder that accepts everything
         ns = {}
         plain = s["source"].replace("from inline_snapshot import snapshot\n", "class _Any:\n    def __eq__(s, o): return True\n    def __le__(s, o): return True\n    def __ge__(s, o): return True\n"
@@ -296,10 +303,22 @@ def run_sched(s):
             ns["test_a"]()
         except Exception:  # noqa
             pass
-        out["log"] = ns["LOG"]
+        out["log"] = _plain(ns["LOG"])
+        out["arg"] = _plain(out["arg"])
     except Exception as e:  # noqa
         out["error"] = f"{type(e).__name__}: {e}"
     return out
+
+
+def _plain(x):
+    """namedtuples as plain tuples (they compare equal; the classes of a scratch module cannot cross the process boundary)"""
+    if isinstance(x, tuple):
+        return tuple(_plain(y) for y in x)
+    if isinstance(x, list):
+        return [_plain(y) for y in x]
+    if isinstance(x, dict):
+        return {k: _plain(v) for k, v in x.items()}
+    return x
 
 
 def plain_ok(source):
